@@ -5,6 +5,7 @@ pub mod common;
 pub mod matching;
 pub mod relational;
 pub mod report;
+pub mod text;
 
 use crate::Leaf;
 use crate::ledger::Skeleton;
@@ -16,6 +17,9 @@ pub fn run(prop: &str, sk: &Skeleton) -> Leaf {
         "C07dates" => report::c07_dates(sk),
         "C07mcp" => report::c07_mcp(sk),
         "C07" => report::c07(sk),
+        "C14" => text::c14(sk),
+        "C15" => text::c15(sk),
+        "C17" => text::c17(sk),
         "C06" => relational::c06(sk),
         "C09" => relational::c09(sk),
         "C10" => relational::c10(sk),
@@ -27,4 +31,8 @@ pub fn run(prop: &str, sk: &Skeleton) -> Leaf {
 
 /// A panic of the code under test reached the harness: only C15 treats that as its subject; for every
 /// other property it is recorded as outcome "panic" and reported by the driver as an inconclusive path.
-pub fn on_panic(_prop: &str, _sk: &Skeleton, _leaf: &mut Leaf) {}
+pub fn on_panic(prop: &str, _sk: &Skeleton, leaf: &mut Leaf) {
+    if prop == "C15" {
+        text::c15_on_panic(leaf);
+    }
+}
